@@ -111,6 +111,10 @@ type cfg struct {
 
 	blobStor      common.Storage
 	initedStorage bool
+	// blobStorRO tells how blobStor is opened; blobStorStale is set when an
+	// attempt to reopen it failed half-way.
+	blobStorRO    bool
+	blobStorStale bool
 }
 
 func defaultCfg() *cfg {
